@@ -997,7 +997,22 @@ pub fn execute(t: &LspTrace, stats: &mut Stats) -> RunReport {
         other => panic!("no lsp oracle for {other}"),
     };
     let nontrivial = t.events.iter().any(|e| matches!(e, Event::Open { .. } | Event::Change { .. } | Event::SemTok { .. } | Event::UnknownRequest { .. } | Event::ClientResponse { .. }));
-    RunReport { violations, nontrivial }
+    // single-incarnation, disk-free histories can be cross-checked against the shipped binary
+    let mut proc_cases = vec![];
+    if h.incarnations.len() == 1 && !t.use_ws_folder && h.incarnations[0].died.is_none() && (t.prop == "C12" || t.prop == "C11") {
+        let inc = &h.incarnations[0];
+        let frames: Vec<Value> = inc.steps.iter().map(|s| {
+            // lsp-server (de)serialises messages without the jsonrpc member; the wire format needs it
+            let mut v = s.sent.clone();
+            if let Some(o) = v.as_object_mut() {
+                o.insert("jsonrpc".into(), Value::String("2.0".into()));
+            }
+            v
+        }).collect();
+        let predicted: Vec<String> = inc.steps.iter().flat_map(|s| s.outputs.iter()).filter_map(crate::proc_check::summarise_output).collect();
+        proc_cases.push(crate::proc_check::ProcCase::Lsp { run_index: 0, frames, predicted, predicted_exit_ok: matches!(inc.result, Some(Ok(()))) });
+    }
+    RunReport { violations, nontrivial, proc_cases }
 }
 
 // ---------------------------------------------------------------------------------------------
